@@ -135,6 +135,8 @@ type Run struct {
 	callN, qctr, noDef, probing int
 	pureInsts  map[string]*pureInst
 	guards     map[string]*Term
+	axiomsDone map[string]bool
+	axiomsUsed []string
 	tracker    *heapTracker
 	trackState *State
 }
@@ -473,6 +475,7 @@ type loopInfo struct {
 	modLocals []*ssa.Alloc
 	modKeys   []string
 	decHead   Term
+	nBack     int
 }
 
 type mapIter struct {
